@@ -233,6 +233,8 @@ func optBytes(r *rand.Rand) string {
 	}
 }
 
+var kdfMemberSeq int
+
 func genKdfOps(r *rand.Rand, n int) []string {
 	var out []string
 	for i := 0; i < n; i++ {
@@ -253,6 +255,11 @@ func genKdfOps(r *rand.Rand, n int) []string {
 		// a foreign KDF context from the mini encoder
 		pi := func() *cnode {
 			mk := func() *cnode {
+				kdfMemberSeq++
+				if kdfMemberSeq%11 == 4 { // fixed slots, every member position in turn: a member that is neither a byte string nor null
+					odd := [][]byte{{0x61, 0x6e}, {0xa0}, {0xf5}, {0xf9, 0x3c, 0x00}, {0x07}, {0x20}, {0xa1, 0x01, 0x02}, {0xf4}, {0x60}, {0xfb, 0x3f, 0xf0, 0, 0, 0, 0, 0, 0}}
+					return &cnode{raw: odd[(kdfMemberSeq/11)%len(odd)]}
+				}
 				if r.Intn(3) == 0 {
 					return &cnode{mt: 7, n: 22}
 				}
@@ -378,6 +385,19 @@ func genDecOps(r *rand.Rand, n int) []string {
 			b = mutateBytes(r, b)
 		}
 		out = append(out, "dec.keyset "+hx(b))
+		if i%5 == 2 {
+			// fixed slots: a key whose members sit under *text* labels that print like the registered integer labels
+			// ("1", "3", "-1", "2") — alone, or next to the integer label of the same print: text labels stay text
+			tl := func(s string) *cnode { return &cnode{mt: 3, b: []byte(s)} }
+			tk := &cnode{mt: 5, kids: []*cnode{tl("1"), {mt: 0, n: 4}, tl("2"), {mt: 2, b: randBytes(r, 3)}, tl("3"), {mt: 0, n: 5}, tl("-1"), {mt: 2, b: randBytes(r, 32)}}}
+			switch (i / 5) % 3 {
+			case 1: // both 3 and "3"
+				tk = &cnode{mt: 5, kids: []*cnode{{mt: 0, n: 1}, {mt: 0, n: 4}, {mt: 0, n: 3}, {mt: 0, n: 4}, tl("3"), {mt: 0, n: 5}, {mt: 1, n: 0}, {mt: 2, b: randBytes(r, 32)}}}
+			case 2: // "01", "+1", " 1": never numbers
+				tk = &cnode{mt: 5, kids: []*cnode{tl("01"), {mt: 0, n: 4}, tl("+3"), {mt: 0, n: 5}, tl(" 1"), {mt: 0, n: 1}, tl("1e0"), {mt: 0, n: 2}}}
+			}
+			out = append(out, "dec.keyset "+hx((&cnode{mt: 4, kids: []*cnode{tk}}).emit(nil, r, nil)))
+		}
 		// recipients
 		rc := &cnode{mt: 4, kids: []*cnode{{mt: 2, b: foreignBucket(r, -6, r.Intn(2) == 0)}, {mt: 5, kids: []*cnode{{mt: 0, n: 4}, {mt: 2, b: randBytes(r, 2)}}}, {mt: 2, b: randBytes(r, r.Intn(6))}}}
 		if r.Intn(3) == 0 {
